@@ -98,13 +98,34 @@ func BytewiseCompare(a, b interface{}) (int, error) {
 // DatetimeCompare compares 'YYYY-MM-DD' and 'YYYY-MM-DD hh:mm:ss' strings as MySQL
 // compares DATETIME values (a date is midnight of that day); int64 numerically.
 func DatetimeCompare(a, b interface{}) (int, error) {
-	norm := func(v interface{}) interface{} {
-		if s, ok := v.(string); ok && len(s) == 10 {
-			return s + " 00:00:00"
-		}
-		return v
+	x, ok1 := a.(string)
+	y, ok2 := b.(string)
+	if !ok1 || !ok2 {
+		return BytewiseCompare(a, b)
 	}
-	return BytewiseCompare(norm(a), norm(b))
+	// compare the common date part, then the time parts with a missing one = midnight
+	const midnight = " 00:00:00"
+	xd, xt, yd, yt := x, midnight, y, midnight
+	if len(x) > 10 {
+		xd, xt = x[:10], x[10:]
+	}
+	if len(y) > 10 {
+		yd, yt = y[:10], y[10:]
+	}
+	if len(x) < 10 || len(y) < 10 { // not a date: plain string order
+		return BytewiseCompare(a, b)
+	}
+	switch {
+	case xd < yd:
+		return -1, nil
+	case xd > yd:
+		return 1, nil
+	case xt < yt:
+		return -1, nil
+	case xt > yt:
+		return 1, nil
+	}
+	return 0, nil
 }
 
 // Eval evaluates a boolean condition of the supported fragment on one row:
@@ -354,4 +375,253 @@ func EvalAll(conds []ast.ExprNode, env *Env) (Tri, error) {
 		res = and3(res, t)
 	}
 	return res, nil
+}
+
+// ---------------------------------------------------------------- compiled form
+
+// Compiled is a set of conditions prepared for evaluation on many rows (literals are
+// extracted once; evaluation allocates nothing). Semantics are exactly those of EvalAll.
+type Compiled struct{ conds []*cnode }
+
+type cnode struct {
+	kind    byte // 'a' and, 'o' or, 'n' not, 'c' compare, 'i' in, 'b' between, 'z' is null, 'v' literal, 'r' column ref, 'm' unary minus
+	op      opcode.Op
+	not     bool
+	l, r, x *cnode
+	list    []*cnode
+	val     interface{}
+	tbl     string
+	col     string
+}
+
+// Compile prepares conditions; it fails on anything outside the supported fragment.
+func Compile(conds []ast.ExprNode) (*Compiled, error) {
+	c := &Compiled{}
+	for _, e := range conds {
+		n, err := compileCond(e)
+		if err != nil {
+			return nil, err
+		}
+		c.conds = append(c.conds, n)
+	}
+	return c, nil
+}
+
+func compileCond(e ast.ExprNode) (*cnode, error) {
+	switch n := e.(type) {
+	case *ast.ParenthesesExpr:
+		return compileCond(n.Expr)
+	case *ast.UnaryOperationExpr:
+		if n.Op == opcode.Not {
+			x, err := compileCond(n.V)
+			return &cnode{kind: 'n', x: x}, err
+		}
+		return nil, fmt.Errorf("unsupported unary operator %v in condition", n.Op)
+	case *ast.BinaryOperationExpr:
+		switch n.Op {
+		case opcode.LogicAnd, opcode.LogicOr:
+			l, err := compileCond(n.L)
+			if err != nil {
+				return nil, err
+			}
+			r, err := compileCond(n.R)
+			if err != nil {
+				return nil, err
+			}
+			k := byte('a')
+			if n.Op == opcode.LogicOr {
+				k = 'o'
+			}
+			return &cnode{kind: k, l: l, r: r}, nil
+		case opcode.EQ, opcode.NE, opcode.LT, opcode.LE, opcode.GT, opcode.GE:
+			l, err := compileValue(n.L)
+			if err != nil {
+				return nil, err
+			}
+			r, err := compileValue(n.R)
+			if err != nil {
+				return nil, err
+			}
+			return &cnode{kind: 'c', op: n.Op, l: l, r: r}, nil
+		}
+		return nil, fmt.Errorf("unsupported binary operator %v", n.Op)
+	case *ast.PatternInExpr:
+		if n.Sel != nil {
+			return nil, fmt.Errorf("IN (subquery) unsupported")
+		}
+		x, err := compileValue(n.Expr)
+		if err != nil {
+			return nil, err
+		}
+		out := &cnode{kind: 'i', x: x, not: n.Not}
+		for _, it := range n.List {
+			v, err := compileValue(it)
+			if err != nil {
+				return nil, err
+			}
+			out.list = append(out.list, v)
+		}
+		return out, nil
+	case *ast.BetweenExpr:
+		x, err := compileValue(n.Expr)
+		if err != nil {
+			return nil, err
+		}
+		l, err := compileValue(n.Left)
+		if err != nil {
+			return nil, err
+		}
+		r, err := compileValue(n.Right)
+		if err != nil {
+			return nil, err
+		}
+		return &cnode{kind: 'b', x: x, l: l, r: r, not: n.Not}, nil
+	case *ast.IsNullExpr:
+		x, err := compileValue(n.Expr)
+		if err != nil {
+			return nil, err
+		}
+		return &cnode{kind: 'z', x: x, not: n.Not}, nil
+	}
+	return nil, fmt.Errorf("unsupported condition node %T", e)
+}
+
+func compileValue(e ast.ExprNode) (*cnode, error) {
+	switch n := e.(type) {
+	case *ast.ParenthesesExpr:
+		return compileValue(n.Expr)
+	case *ast.ColumnNameExpr:
+		return &cnode{kind: 'r', tbl: n.Name.Table.L, col: n.Name.Name.L}, nil
+	case *driver.ValueExpr:
+		v, err := LiteralValue(n)
+		return &cnode{kind: 'v', val: v}, err
+	case *ast.UnaryOperationExpr:
+		if n.Op == opcode.Minus {
+			x, err := compileValue(n.V)
+			if err != nil {
+				return nil, err
+			}
+			if i, ok := x.val.(int64); ok && x.kind == 'v' {
+				return &cnode{kind: 'v', val: -i}, nil
+			}
+		}
+		return nil, fmt.Errorf("unsupported unary operator %v in value", n.Op)
+	}
+	return nil, fmt.Errorf("unsupported value node %T", e)
+}
+
+// Eval is the conjunction of all compiled conditions on the row given by env.
+func (c *Compiled) Eval(env *Env) (Tri, error) {
+	res := True
+	for _, n := range c.conds {
+		t, err := n.eval(env)
+		if err != nil {
+			return Unknown, err
+		}
+		res = and3(res, t)
+	}
+	return res, nil
+}
+
+func (n *cnode) value(env *Env) (interface{}, error) {
+	if n.kind == 'v' {
+		return n.val, nil
+	}
+	v, ok := env.Column(n.tbl, n.col)
+	if !ok {
+		return nil, fmt.Errorf("unknown column %s.%s", n.tbl, n.col)
+	}
+	return v, nil
+}
+
+func (n *cnode) eval(env *Env) (Tri, error) {
+	switch n.kind {
+	case 'n':
+		t, err := n.x.eval(env)
+		return not3(t), err
+	case 'a', 'o':
+		l, err := n.l.eval(env)
+		if err != nil {
+			return Unknown, err
+		}
+		r, err := n.r.eval(env)
+		if err != nil {
+			return Unknown, err
+		}
+		if n.kind == 'a' {
+			return and3(l, r), nil
+		}
+		return or3(l, r), nil
+	case 'c':
+		l, err := n.l.value(env)
+		if err != nil {
+			return Unknown, err
+		}
+		r, err := n.r.value(env)
+		if err != nil {
+			return Unknown, err
+		}
+		return cmp3(n.op, l, r, env)
+	case 'i':
+		x, err := n.x.value(env)
+		if err != nil {
+			return Unknown, err
+		}
+		res := False
+		if x == nil {
+			res = Unknown
+		} else {
+			for _, it := range n.list {
+				v, err := it.value(env)
+				if err != nil {
+					return Unknown, err
+				}
+				t, err := cmp3(opcode.EQ, x, v, env)
+				if err != nil {
+					return Unknown, err
+				}
+				res = or3(res, t)
+			}
+		}
+		if n.not {
+			return not3(res), nil
+		}
+		return res, nil
+	case 'b':
+		x, err := n.x.value(env)
+		if err != nil {
+			return Unknown, err
+		}
+		lo, err := n.l.value(env)
+		if err != nil {
+			return Unknown, err
+		}
+		hi, err := n.r.value(env)
+		if err != nil {
+			return Unknown, err
+		}
+		a, err := cmp3(opcode.GE, x, lo, env)
+		if err != nil {
+			return Unknown, err
+		}
+		b, err := cmp3(opcode.LE, x, hi, env)
+		if err != nil {
+			return Unknown, err
+		}
+		res := and3(a, b)
+		if n.not {
+			return not3(res), nil
+		}
+		return res, nil
+	case 'z':
+		x, err := n.x.value(env)
+		if err != nil {
+			return Unknown, err
+		}
+		if (x == nil) != n.not {
+			return True, nil
+		}
+		return False, nil
+	}
+	return Unknown, fmt.Errorf("internal: bad compiled node %c", n.kind)
 }
